@@ -117,7 +117,7 @@ class Driver(object):
         c = dict(tls=rnd.random() < 0.4, user=rnd.choice(names),
                  pw=rnd.choice(names), host=rnd.choice(hosts),
                  port=rnd.choice(['5672', '5671', '1', '65535', '15672', '0080']),
-                 vhost=rnd.choice(names + ['/', 'vh', '%2F', 'a/b']),
+                 vhost=rnd.choice(names + ['/', 'vh', '%2F', 'a/b', '/prod', '//', '/a/b/', 'x/', '///v']),
                  hb=rnd.choice(['0', '60', '5', '600', '007']),
                  tmo=rnd.choice(['1', '10', '30', '0']),
                  tmo_first=rnd.random() < 0.5)
